@@ -57,6 +57,12 @@ func runC19(r *Report) {
 	r.Rule("C19/truncate", "the writer opens its path with constant flags containing O_WRONLY|O_CREATE|O_TRUNC and not O_APPEND/O_EXCL")
 	r.Rule("C19/owner-only", "file-system mutators reachable from Generate*/main are exactly the enumerated sites, and every path they touch is path.Join(outDir, <owned const>)")
 	r.Rule("C19/reads-enumerated", "the generation path reads no file-system state besides spec file, config file and the --dir listing; goimports gets no file name")
+	r.Rule("C19/map-range", "re-run clause: a range over a map reachable from Generate is order-insensitive (collect-then-sort, commutative keyed build, error-only sink)")
+	r.Rule("C19/map-iter-call", "re-run clause: results of maps.Keys/Values are sorted before use")
+	r.Rule("C19/env", "re-run clause: no time/rand/env/host source reachable from Generate or run by a package initialiser")
+	r.Rule("C19/concurrency", "re-run clause: no goroutine, select or channel operation reachable from Generate")
+	r.Rule("C19/ptr-format", "re-run clause: no address formatted into generated text")
+	r.Rule("C19/global-state", "re-run clause: no package-level state written on the generation path")
 	r.Rule("C19/error-not-swallowed", "the error of os.Remove is tested; anything other than not-exist returns a non-nil error")
 	r.Rule("C19/outdir-stable", "the output directory parameter and the controlling conditions are never reassigned in the generating function")
 	r.Assumptions = append(r.Assumptions,
@@ -73,6 +79,11 @@ func runC19(r *Report) {
 	c.findWriters()
 	ruleTruncate(r, s, "C19/truncate")
 	ruleFSReads(r, s, "C19/reads-enumerated")
+	// "re-running the same invocation changes nothing": the written bytes must be a function of
+	// the invocation — same source enumeration as C12, reported under this property
+	_, _, nRange, _, _ := scanDeterminism(r, s, "C19")
+	r.Analysed["map_ranges_reachable"] = nRange
+	ruleGlobalState(r, s, "C19/global-state")
 	nGen := c.settle()
 	c.ownerOnly()
 	r.Analysed["writers"] = func() []string {
